@@ -378,6 +378,17 @@ def make_case(rng):
     if rng.random() < 0.5:
         for base in rng.sample(["Fa", "Qn", "Tx", "Gv"], rng.choice([1, 2])):
             q = p.deftab[base[0].upper()]
+            # a bare variable of the main module with the same first letter: typed by the table as it stands in the main module
+            if q != "$":
+                wv = base[0] + "w"
+                lines.append("%s = 11 / 4" % mixcase(rng, wv))
+                lines.append('PRINT "w"; %s' % mixcase(rng, wv))
+                expected.append("w" + (" 3 " if q in "%&" else " 2.75 "))
+            if rng.random() < 0.5:
+                # a DEFtype statement between the procedures: it types this FUNCTION and its bare parameter, nothing before it
+                q = rng.choice(QS)
+                fn_lines.append("%s %s" % (mixcase(rng, DEFKW[q]), rng.choice([base[0].upper(), base[0].lower()])))
+                p.features.add("deftype_between_procedures")
             par = base[0] + "p"
             call = mixcase(rng, base) + (q if rng.random() < 0.4 else "")
             if q == "$":
